@@ -123,3 +123,101 @@ Theorem gen_sequence_from_sequence_is_copy : forall (s : store) (ro : rid), ro <
   /\ forall x, hget (fst (CharacterDataSequence_init_from_sequence s ro)) x = hget (fst (new_from CopyValues s ro)) x.
 Proof. exact gen_init_is_copy_l. Qed.
 Print Assumptions gen_sequence_from_sequence_is_copy.
+
+From DV Require Import Proofs.C09W9Sep.
+
+(* ---- wave 9: separation is an invariant of routes; whole histories ---- *)
+
+(* a route step preserves separation: after add_/replace_/update_/extend_sequences, extend_matrix, concatenate or
+   export_character_indices (CharacterDataSequence(other) copying the values) still no value list sits under two
+   (matrix, taxon) slots and every id is allocated *)
+Theorem route_step_preserves_separation : forall (w : oworld) (o : oop) (w' : oworld),
+  (NoDup (all_ids w) /\ forall r, In r (all_ids w) -> r < s_next (ow_store w)) ->
+  o_step CopyValues w o = Ok w' ->
+  NoDup (all_ids w') /\ forall r, In r (all_ids w') -> r < s_next (ow_store w').
+Proof. exact o_step_sep. Qed.
+Print Assumptions route_step_preserves_separation.
+
+(* every world delivered by from_dict / the readers (each row a fresh list) is separated, for ANY matrices *)
+Theorem initial_world_separated : forall (ms : list rowmap),
+  NoDup (all_ids (o_init ms)) /\ forall r, In r (all_ids (o_init ms)) -> r < s_next (ow_store (o_init ms)).
+Proof. exact o_init_sep. Qed.
+Print Assumptions initial_world_separated.
+
+(* the flag the correspondence compares with the implementation (sepb; `shared` = its negation) decides separation *)
+Theorem sepb_decides_separation : forall (w : oworld),
+  sepb w = true <-> (NoDup (all_ids w) /\ forall r, In r (all_ids w) -> r < s_next (ow_store w)).
+Proof. exact sepb_spec. Qed.
+Print Assumptions sepb_decides_separation.
+
+(* whole histories: for every history of route steps from a separated world that runs, at EVERY position
+   (pre ++ o :: post) the step o starts in a separated world w1, ends in a separated world w2, changes no matrix
+   but its receiver (same taxon -> list map, same values in every list), and the final world is separated *)
+Theorem route_history_changes_only_receivers : forall (pre : list oop) (o : oop) (post : list oop) (w wf : oworld),
+  (NoDup (all_ids w) /\ forall r, In r (all_ids w) -> r < s_next (ow_store w)) ->
+  o_run CopyValues w (pre ++ o :: post) = Ok wf ->
+  exists w1 w2,
+    o_run CopyValues w pre = Ok w1 /\ o_step CopyValues w1 o = Ok w2 /\ o_run CopyValues w2 post = Ok wf
+    /\ (NoDup (all_ids w1) /\ forall r, In r (all_ids w1) -> r < s_next (ow_store w1))
+    /\ (NoDup (all_ids w2) /\ forall r, In r (all_ids w2) -> r < s_next (ow_store w2))
+    /\ (NoDup (all_ids wf) /\ forall r, In r (all_ids wf) -> r < s_next (ow_store wf))
+    /\ forall i mi, receiver o <> Some i -> nth_error (ow_ms w1) i = Some mi ->
+         nth_error (ow_ms w2) i = Some mi /\ deref (ow_store w2) mi = deref (ow_store w1) mi.
+Proof. exact route_history_l. Qed.
+Print Assumptions route_history_changes_only_receivers.
+
+(* a matrix that no step of the route has as its receiver - a pure SOURCE - has after the whole route the
+   taxon -> list map and the values it had before it *)
+Theorem route_keeps_pure_sources : forall (ops : list oop) (w w' : oworld) (i : nat) (mi : orows),
+  (NoDup (all_ids w) /\ forall r, In r (all_ids w) -> r < s_next (ow_store w)) ->
+  o_run CopyValues w ops = Ok w' -> (forall o, In o ops -> receiver o <> Some i) ->
+  nth_error (ow_ms w) i = Some mi ->
+  nth_error (ow_ms w') i = Some mi /\ deref (ow_store w') mi = deref (ow_store w) mi.
+Proof. exact o_run_frame. Qed.
+Print Assumptions route_keeps_pure_sources.
+
+(* C09's clause on the sources, whole routes: such a matrix is written to FASTA and read back AFTER the route
+   with the content it had before it (the frame gives equality of the matrix: every other round-trip theorem
+   composes the same way) *)
+Theorem source_roundtrip_after_route : forall (lower : text -> text) (a : alphabet) (wrap : bool) (width : Z)
+    (ns : list text) (w : oworld) (ops : list oop) (w' : oworld) (i : nat) (mi : orows),
+  (NoDup (all_ids w) /\ forall r, In r (all_ids w) -> r < s_next (ow_store w)) ->
+  o_run CopyValues w ops = Ok w' -> (forall o, In o ops -> receiver o <> Some i) ->
+  nth_error (ow_ms w) i = Some mi ->
+  forallb fasta_label_ok (map fst (iter_rows ns (deref (ow_store w) mi))) = true ->
+  labels_distinct lower (map fst (iter_rows ns (deref (ow_store w) mi))) = true ->
+  cells_ok a (iter_rows ns (deref (ow_store w) mi)) = true ->
+  rows_nonempty (iter_rows ns (deref (ow_store w) mi)) = true ->
+  exists mi', nth_error (ow_ms w') i = Some mi' /\
+    read_fasta lower a (write_fasta a wrap width (iter_rows ns (deref (ow_store w') mi')))
+    = Ok (iter_rows ns (deref (ow_store w) mi)).
+Proof. exact source_roundtrip_after_route_l. Qed.
+Print Assumptions source_roundtrip_after_route.
+
+(* routes from delivered matrices: whatever the matrices and the steps, the model's `shared` flag is false at the
+   end (what the object-level correspondence compares with the implementation on every pool route) *)
+Theorem route_from_initial_world_never_shares : forall (ms : list rowmap) (ops : list oop) (w' : oworld),
+  o_run CopyValues (o_init ms) ops = Ok w' -> sepb w' = true.
+Proof. exact route_from_init_sepb. Qed.
+Print Assumptions route_from_initial_world_never_shares.
+
+(* the hypotheses are satisfiable: a five-step route (update_sequences, extend_sequences, concatenate with a
+   repeated argument, export_character_indices, replace_sequences) over three delivered matrices runs *)
+Theorem route_history_example :
+  exists w', o_run CopyValues (o_init ex_ms3) ex_route = Ok w'
+             /\ length (ow_ms w') = 5%nat
+             /\ nth 0 (contents w') [] = [([97], [0; 1]); ([98], [2; 3]); ([99], [3; 3])]
+             /\ nth 1 (contents w') [] = [([98], [1; 2; 3]); ([97], [0; 0; 1]); ([99], [3; 3])]
+             /\ nth 2 (contents w') [] = [([99], [3])]
+             /\ nth 3 (contents w') [] = [([97], [0; 1; 0; 0; 1; 0; 1]); ([98], [2; 3; 1; 2; 3; 2; 3]); ([99], [3; 3; 3; 3; 3; 3])].
+Proof. exact ex_route_runs. Qed.
+Print Assumptions route_history_example.
+
+(* preservation is false if CharacterDataSequence(other) took other's value list itself: one concatenate from a
+   separated world ends in a world with a list under two slots *)
+Theorem route_step_separation_refuted_with_shared_values :
+  exists w', (NoDup (all_ids (o_init ex_ms)) /\ forall r, In r (all_ids (o_init ex_ms)) -> r < s_next (ow_store (o_init ex_ms)))
+             /\ o_step ShareValues (o_init ex_ms) (OConcat [0%nat; 1%nat]) = Ok w'
+             /\ ~ (NoDup (all_ids w') /\ forall r, In r (all_ids w') -> r < s_next (ow_store w')).
+Proof. exact sep_preservation_refuted_shared_l. Qed.
+Print Assumptions route_step_separation_refuted_with_shared_values.
